@@ -463,4 +463,219 @@ theorem ninv_run (p : Plan) (hp : p.helper = .nodes) (hd : p.descentFilter = non
     | none => exact hi
     | some r => obtain ⟨c', off⟩ := r; exact ih c' (acc ++ off) (ninv_step p hp hd root hi h)
 
+/-! ### AcyclicTraverseTerminals: an order-free characterisation by counting -/
+
+/-- number of edges into `v` out of the nodes of `V` (with multiplicity) -/
+def indeg (adj : Nat → List (Nat × Nat)) (V : List Nat) (v : Nat) : Nat := (V.flatMap (succs adj)).count v
+
+def b2n (b : Prop) [Decidable b] : Nat := if b then 1 else 0
+
+structure TermInv (p : Plan) (root : Nat) (c : Core) (acc : List Seg) : Prop where
+  eqn : ∀ v, (acc.map Seg.node).count v + (c.stack.map Seg.node).count v + b2n (v ∈ c.visited) =
+    indeg p.adj c.visited v + b2n (v = root) + b2n (v ∈ c.visited ∧ p.adj v = [] ∧ v ≠ root)
+  nodup : c.visited.Nodup
+  phase : (c.stack = [{ root := root, steps := [] }] ∧ c.visited = [] ∧ acc = []) ∨
+          (root ∈ c.visited ∧ ∀ s ∈ c.stack, s.depth > 0)
+
+theorem kids_nodes (adj : Nat → List (Nat × Nat)) (next : Seg) :
+    ((adj next.node).map (fun e => next.descend e.1 e.2)).map Seg.node = succs adj next.node := by
+  simp [succs, List.map_map, Function.comp_def]
+
+theorem terminv_step (p : Plan) (hp : p.helper = .terminals) (hd : p.descentFilter = none) (hpf : p.pathFilter = none)
+    (root : Nat) {c c' : Core} {acc off : List Seg} (hi : TermInv p root c acc) (h : iterCore p c = some (c', off)) :
+    TermInv p root c' (acc ++ off) := by
+  unfold iterCore at h
+  cases hst : c.stack with
+  | nil => rw [hst] at h; cases h
+  | cons next below =>
+    rw [hst] at h
+    simp only [Option.some.injEq, Prod.mk.injEq] at h
+    obtain ⟨hc', hoff⟩ := h
+    have hpush : ∀ x : Seg, pushOK p x = true := by intro x; simp [pushOK, hd, optAccept, hp]
+    have hod : ∀ x : Seg, offeredByDescent p x = false := by intro x; simp [offeredByDescent, hp]
+    have hov : ∀ b, offeredByVisit p next b = (b && decide (next.depth > 0)) := by
+      intro b; simp [offeredByVisit, hp, hpf, optAccept]
+    have hfd : ∀ l : List Seg, l.filter (offeredByDescent p) = [] := by
+      intro l; exact List.filter_eq_nil_iff.mpr (fun x _ => by simp [hod])
+    have hfp : ∀ l : List Seg, l.filter (pushOK p) = l := fun l => List.filter_eq_self.mpr (fun x _ => hpush x)
+    simp only [hfd, hfp, hov, List.nil_append] at hc' hoff
+    have heq := hi.eqn
+    rw [hst] at heq
+    by_cases hv : next.node ∈ c.visited
+    · -- a node reached again: no expansion, reported as a terminal (its segment has depth > 0)
+      have hex : expandNext p c.visited next = (c.visited, []) := by simp [expandNext, Plan.acyclic, hp, hv]
+      rw [hex] at hc' hoff
+      have hdepth : next.depth > 0 := by
+        rcases hi.phase with ⟨_, h2, _⟩ | ⟨_, h2⟩
+        · rw [h2] at hv; cases hv
+        · exact h2 next (by rw [hst]; exact List.mem_cons_self ..)
+      simp only [List.reverse_nil, List.nil_append, List.isEmpty_nil, Bool.true_and, hdepth, decide_true, if_true] at hc' hoff
+      subst hc'; subst hoff
+      refine ⟨?_, hi.nodup, ?_⟩
+      · intro v
+        have := heq v
+        simp only [List.map_append, List.map_cons, List.map_nil, List.count_append, List.count_cons, List.count_nil] at this ⊢
+        omega
+      · right
+        rcases hi.phase with ⟨_, h2, _⟩ | ⟨h1, h2⟩
+        · rw [h2] at hv; cases hv
+        · exact ⟨h1, fun s hs => h2 s (by rw [hst]; exact List.mem_cons_of_mem _ hs)⟩
+    · -- first visit: mark it, push every branch; a terminal iff it has no branch and depth > 0
+      have hex : expandNext p c.visited next =
+          (next.node :: c.visited, (p.adj next.node).map (fun e => next.descend e.1 e.2)) := by
+        simp [expandNext, Plan.acyclic, hp, hv]
+      rw [hex] at hc' hoff
+      subst hc'; subst hoff
+      have hkn := kids_nodes p.adj next
+      -- the root is expanded by the initial segment only
+      have hroot : (next.node = root ∧ next.depth = 0) ∨ (next.node ≠ root ∧ next.depth > 0) := by
+        rcases hi.phase with ⟨h1, _, _⟩ | ⟨h1, h2⟩
+        · rw [hst] at h1; simp only [List.cons.injEq] at h1; left; rw [h1.1]; simp [Seg.node, Seg.depth]
+        · right
+          exact ⟨fun he => hv (he ▸ h1), h2 next (by rw [hst]; exact List.mem_cons_self ..)⟩
+      refine ⟨?_, List.nodup_cons.mpr ⟨hv, hi.nodup⟩, ?_⟩
+      · intro v
+        have := heq v
+        have hind : indeg p.adj (next.node :: c.visited) v = (succs p.adj next.node).count v + indeg p.adj c.visited v := by
+          simp [indeg, List.flatMap_cons, List.count_append]
+        have hstack : ((((p.adj next.node).map (fun e => next.descend e.1 e.2)).reverse ++ below).map Seg.node).count v =
+            (succs p.adj next.node).count v + (below.map Seg.node).count v := by
+          rw [List.map_append, List.count_append, List.map_reverse, List.count_reverse, hkn]
+        rw [hind, hstack]
+        simp only [List.map_cons, List.count_cons, List.map_append, List.count_append] at this ⊢
+        by_cases hvx : v = next.node
+        · subst hvx
+          have hnv : b2n (next.node ∈ c.visited) = 0 := by simp [b2n, hv]
+          have hnv' : b2n (next.node ∈ next.node :: c.visited) = 1 := by simp [b2n]
+          have hs0 : b2n (next.node ∈ c.visited ∧ p.adj next.node = [] ∧ next.node ≠ root) = 0 := by simp [b2n, hv]
+          rw [hnv, hs0] at this
+          rw [hnv']
+          by_cases hsink : p.adj next.node = []
+          · rcases hroot with ⟨hr, hd0⟩ | ⟨hr, hd0⟩
+            · simp [b2n, hsink, hr, hd0] at this ⊢; omega
+            · simp [b2n, hsink, hr, hd0] at this ⊢; omega
+          · have hne : ((p.adj next.node).map (fun e => next.descend e.1 e.2)).reverse.isEmpty = false := by
+              cases h : p.adj next.node with
+              | nil => exact absurd h hsink
+              | cons a l => simp
+            simp [b2n, hsink, hne] at this ⊢; omega
+        · have h1 : b2n (v ∈ next.node :: c.visited) = b2n (v ∈ c.visited) := by simp [b2n, hvx]
+          have h2 : b2n (v ∈ next.node :: c.visited ∧ p.adj v = [] ∧ v ≠ root) = b2n (v ∈ c.visited ∧ p.adj v = [] ∧ v ≠ root) := by
+            simp [b2n, hvx]
+          have h3 : (if next.node == v then 1 else 0) = 0 := by simp [Ne.symm hvx]
+          have h4 : ((if (((p.adj next.node).map (fun e => next.descend e.1 e.2)).isEmpty && decide (next.depth > 0)) = true
+              then [next] else []).map Seg.node).count v = 0 := by
+            split <;> simp [Ne.symm hvx]
+          rw [h1, h2, h4]
+          rw [h3] at this
+          omega
+      · right
+        have hrootV : root ∈ next.node :: c.visited := by
+          rcases hi.phase with ⟨h1, _, _⟩ | ⟨h1, _⟩
+          · rw [hst] at h1; simp only [List.cons.injEq] at h1
+            have : next.node = root := by rw [h1.1]; simp [Seg.node]
+            rw [this]; exact List.mem_cons_self ..
+          · exact List.mem_cons_of_mem _ h1
+        refine ⟨hrootV, fun s hs => ?_⟩
+        rcases List.mem_append.mp hs with h1 | h1
+        · obtain ⟨e, _, rfl⟩ := List.mem_map.mp (List.mem_reverse.mp h1)
+          simp [Seg.descend, Seg.depth]
+        · rcases hi.phase with ⟨h2, _, _⟩ | ⟨_, h2⟩
+          · rw [hst] at h2; simp only [List.cons.injEq] at h2; rw [h2.2] at h1; cases h1
+          · exact h2 s (by rw [hst]; exact List.mem_cons_of_mem _ h1)
+
+theorem terminv_run (p : Plan) (hp : p.helper = .terminals) (hd : p.descentFilter = none) (hpf : p.pathFilter = none) (root : Nat) :
+    ∀ fuel c acc, TermInv p root c acc → TermInv p root (accRun p fuel c acc).1 (accRun p fuel c acc).2 := by
+  intro fuel
+  induction fuel with
+  | zero => intro c acc hi; exact hi
+  | succ n ih =>
+    intro c acc hi
+    unfold accRun
+    cases h : iterCore p c with
+    | none => exact hi
+    | some r => obtain ⟨c', off⟩ := r; exact ih c' (acc ++ off) (terminv_step p hp hd hpf root hi h)
+
+/-- every reported terminal has been expanded or re-reached: its node is in the visited set -/
+theorem term_off_visited (p : Plan) (hp : p.helper = .terminals) {c c' : Core} {off : List Seg}
+    (h : iterCore p c = some (c', off)) : (∀ s ∈ off, s.node ∈ c'.visited) ∧ (∀ u ∈ c.visited, u ∈ c'.visited) := by
+  unfold iterCore at h
+  cases hst : c.stack with
+  | nil => rw [hst] at h; cases h
+  | cons next below =>
+    rw [hst] at h
+    simp only [Option.some.injEq, Prod.mk.injEq] at h
+    obtain ⟨hc', hoff⟩ := h
+    have hfd : ∀ l : List Seg, l.filter (offeredByDescent p) = [] := by
+      intro l; exact List.filter_eq_nil_iff.mpr (fun x _ => by simp [offeredByDescent, hp])
+    simp only [hfd, List.nil_append] at hoff
+    have hvis : next.node ∈ (expandNext p c.visited next).1 ∧ ∀ u ∈ c.visited, u ∈ (expandNext p c.visited next).1 := by
+      by_cases hv : next.node ∈ c.visited <;> simp [expandNext, Plan.acyclic, hp, hv]
+      intro u hu; exact Or.inr hu
+    subst hc'; subst hoff
+    refine ⟨fun s hs => ?_, hvis.2⟩
+    split at hs
+    · simp at hs; subst hs; exact hvis.1
+    · cases hs
+
+theorem term_acc_visited (p : Plan) (hp : p.helper = .terminals) :
+    ∀ fuel c acc, (∀ s ∈ acc, s.node ∈ c.visited) →
+      ∀ s ∈ (accRun p fuel c acc).2, s.node ∈ (accRun p fuel c acc).1.visited := by
+  intro fuel
+  induction fuel with
+  | zero => intro c acc h; exact h
+  | succ n ih =>
+    intro c acc h
+    unfold accRun
+    cases hc : iterCore p c with
+    | none => exact h
+    | some r =>
+      obtain ⟨c', off⟩ := r
+      have h2 := term_off_visited p hp hc
+      exact ih c' (acc ++ off) (fun s hs => by
+        rcases List.mem_append.mp hs with h3 | h3
+        · exact h2.2 _ (h s h3)
+        · exact h2.1 s h3)
+
+/-- the stack / visited evolution of the terminals helper is that of the node-set helper -/
+def asNodes (p : Plan) : Plan := { p with helper := .nodes }
+
+theorem iterCore_core_eq (p : Plan) (hp : p.helper = .terminals) (c : Core) :
+    (iterCore p c).map (·.1) = (iterCore (asNodes p) c).map (·.1) := by
+  unfold iterCore
+  cases c.stack with
+  | nil => rfl
+  | cons next below =>
+    have h1 : expandNext (asNodes p) c.visited next = expandNext p c.visited next := by
+      simp [expandNext, Plan.acyclic, asNodes, hp]
+    have h2 : pushOK (asNodes p) = pushOK p := by
+      funext x; simp only [pushOK, asNodes, hp]; rfl
+    simp [h1, h2]
+
+theorem accRun_core_eq (p : Plan) (hp : p.helper = .terminals) :
+    ∀ fuel c acc acc', (accRun p fuel c acc).1 = (accRun (asNodes p) fuel c acc').1 := by
+  intro fuel
+  induction fuel with
+  | zero => intro c acc acc'; rfl
+  | succ n ih =>
+    intro c acc acc'
+    have h := iterCore_core_eq p hp c
+    unfold accRun
+    cases h1 : iterCore p c with
+    | none =>
+      rw [h1] at h
+      cases h2 : iterCore (asNodes p) c with
+      | none => rfl
+      | some r => rw [h2] at h; cases h
+    | some r =>
+      rw [h1] at h
+      cases h2 : iterCore (asNodes p) c with
+      | none => rw [h2] at h; cases h
+      | some r' =>
+        rw [h2] at h
+        simp only [Option.map_some, Option.some.injEq] at h
+        obtain ⟨c1, o1⟩ := r; obtain ⟨c2, o2⟩ := r'
+        simp only at h; subst h
+        exact ih c1 _ _
+
 end Dawgs.C17.Seq
